@@ -35,7 +35,13 @@
 (*   unjson-rejects-2p63-to-2p64    an integral float (or uint64) with     *)
 (*                                  2^63 <= magnitude < 2^64 is written as *)
 (*                                  an integer text the decoder refuses    *)
-(* where the JSON is fine and only the decoders fail.                      *)
+(* where the JSON is fine and only the decoders fail;                      *)
+(*   reserved-member-name-as-key    a user key named Atype / zKeyOrder is  *)
+(*                                  written as a second member of that     *)
+(*                                  name: accepted JSON that denotes other *)
+(*                                  data (whatever the decoders then do)   *)
+(*   nonfinite-float-not-encodable  +Inf / -Inf / NaN are written as these *)
+(*                                  words (malformed, msgpack fails too)   *)
 (***************************************************************************)
 EXTENDS Codec, Json, IOUtils, SequencesExt
 
@@ -74,6 +80,10 @@ RtVerdict(c) ==
             THEN <<"known:json-uint64-suffix", "">>
        ELSE IF decfail /\ DevOn("unjson-rejects-2p63-to-2p64") /\ HasUintGapNumber(v)
             THEN <<"known:unjson-rejects-2p63-to-2p64", "">>
+       ELSE IF jok /\ ~den /\ DevOn("reserved-member-name-as-key") /\ HasReservedKey(v)
+            THEN <<"known:reserved-member-name-as-key", "">>
+       ELSE IF ~jok /\ DevOn("nonfinite-float-not-encodable") /\ HasNonFinite(v)   \* (a lenient decoder reads -Inf as 0)
+            THEN <<"known:nonfinite-float-not-encodable", "">>
        ELSE <<"bad", IF ~jok THEN "json-malformed" ELSE IF ~den THEN "json-denotes-other"
                      ELSE IF ~ujok THEN "unjson" ELSE "unmsgpack">>
 
